@@ -7,7 +7,8 @@ import vf
 
 def tables():
     src = open(os.path.join(vf.COQ, "Gen", "Options.v")).read()
-    settings = re.findall(r'\("(\w+)", "([\w-]*)", "([\w\[\]\*\.]+)"\)', src.split("Definition defaults")[0])
+    # the documented key of a setting is the NAME part of its yaml tag (what follows a comma are yaml options such as omitempty)
+    settings = [(f, t.split(",")[0], k) for f, t, k in re.findall(r'\("(\w+)", "([^"]*)", "([\w\[\]\*\.]+)"\)', src.split("Definition defaults")[0])]
     defaults = dict(re.findall(r'\("(\w+)", "((?:[^"]|"")*)"\)', src.split("Definition defaults")[1].split("Definition stages")[0]))
     regs = re.findall(r'StReg "(\w+)" "([\w-]+)"', src.split("Definition stages")[1])
     return settings, defaults, regs
